@@ -787,13 +787,12 @@ example : Sq.fetchText (str "A-c.*~G_") (some (str "<.>.,.:.")) = some { seq := 
     Sq.fetchDigital G.dna (mkDsq [0, 4, 1, 4, 16, 17, 2, 4]) (some (str "<.>.,.:.")) =
       some { seq := mkDsq [0, 1, 16, 2], ss := some (str "<>,:"), n := 4 } := by decide +kernel
 
-/-- the ss buffer of a reused `ESL_SQ` across `esl_sq_GetFromMSA` calls (`Sq.getAlloc`: `esl_sq_GrowTo` + first allocation +
-    `strcpy`): when a NULL `sq->ss` is allocated with `salloc` cells (the proposed repair,
-    `/var/tmp/fixes-proposed/C08-sq-getfrommsa-ss.patch`), NO history of calls — any widths, SS line present or absent in any
-    call, text (`extra = 1`) or digital (`extra = 2`) mode — copies past the buffer. The code as it stands allocates the exact
-    SS-line length (`exact = true`, what the driver mirrors): the `example` below is the overflow (10 columns, then 100, both
-    with an SS line), reproduced with ASan; the generator keeps away from that shape until the repair lands. -/
-theorem get_from_msa_ss_buffer_fixed (extra : Nat) (hist : List (Nat × Bool)) (st : Sq.SsAlloc) (h : Sq.SsInv st) :
+/-- **the ss buffer of a reused `ESL_SQ` across `esl_sq_GetFromMSA` calls** (`Sq.getAlloc`: `esl_sq_GrowTo` + first allocation +
+    `strcpy`; a NULL `sq->ss` is allocated with `salloc` cells since fix 4807e60 — `exact = false`, what the driver mirrors):
+    NO history of calls — any widths, SS line present or absent in any call, text (`extra = 1`) or digital (`extra = 2`) mode —
+    copies past the buffer. Before the fix the buffer had the exact SS-line length (`exact = true`): the `example` below is the
+    overflow this check found (10 columns, then 100, both with an SS line). -/
+theorem get_from_msa_ss_buffer_safe (extra : Nat) (hist : List (Nat × Bool)) (st : Sq.SsAlloc) (h : Sq.SsInv st) :
     (Sq.getAllocRun false extra st hist).isSome = true :=
   Sq.getAllocRun_safe extra hist st h
 
